@@ -355,7 +355,34 @@ class EdgeStatePlugin:
                                           f"{len(self.unmatched)} auxiliary positions left over)"))
             ctx.abort = True
             return
-        ctx.edge_state = lambda i, o, v: ctx.y_sym[assign[(i, o, v)]]
+        # several pairs can carry the SAME differential equation (a coupling operator without a target-side input gives
+        # every pair of one source unit the same equation): positions with the same equation in their own state and the
+        # same initial value are the same function of time (uniqueness of ODE solutions) and share one symbol
+        y0 = np.asarray(ctx.c.args[1], dtype=float).reshape(-1)
+        rep = {j: j for j in aux}
+        zz = symx.real('ES|z')
+        for a_i, j1 in enumerate(aux):
+            if rep[j1] != j1:
+                continue
+            t1 = Sym(z3.substitute(symx.lift(ctx.out[j1]), (symx.lift(ctx.y_sym[j1]), zz.e)))
+            for j2 in aux[a_i + 1:]:
+                if rep[j2] != j2 or y0[j1] != y0[j2]:
+                    continue
+                t2 = Sym(z3.substitute(symx.lift(ctx.out[j2]), (symx.lift(ctx.y_sym[j2]), zz.e)))
+                v, _ = decide.prove_equal(t1, t2, pc=ctx.pc, tally=tally)
+                if v == 'unsat':
+                    rep[j2] = j1
+        subs = [(symx.lift(ctx.y_sym[j]), symx.lift(ctx.y_sym[r])) for j, r in rep.items() if j != r]
+        if subs:
+            out = np.empty(ctx.out.shape, dtype=object)
+            for i, cell in enumerate(ctx.out):
+                out[i] = Sym(z3.substitute(symx.lift(cell), *subs))
+            ctx.out = out
+            for j, r in rep.items():
+                if j != r:
+                    ctx.y_names[j] = ctx.y_names[r]
+            res['edge_states']['merged'] = len(subs)
+        ctx.edge_state = lambda i, o, v: ctx.y_sym[rep[assign[(i, o, v)]]]
 
 
 class Composite:
